@@ -104,9 +104,9 @@ PlainToks == {DocToken(FALSE, <<"", "">>, b) : b \in Bodies}
 PSet == PlainToks \cup {x \o <<" ">> \o y : x \in PlainToks, y \in PlainToks}
 NarrowingSound == LET kq == CacheKey(q, opt) IN \A P \in PSet : LET kp == CacheKey(P, opt) IN
     (Cacheable(P, opt) /\ kp # <<>> /\ (ProperPrefix(kp, kq) \/ ProperSuffix(kp, kq)))
-      => MS(q, opt, {}) \subseteq MS(P, opt, {})
+      => (PrintT(<<"NARROW", 1>>) /\ MS(q, opt, {}) \subseteq MS(P, opt, {}))       \* the print counts non-vacuous instances
 LookupSound == Cacheable(q, opt) => LET kq == CacheKey(q, opt) IN \A P \in PSet :
-    (Cacheable(P, opt) /\ kq # <<>> /\ CacheKey(P, opt) = kq) => MS(q, opt, {}) = MS(P, opt, {})
+    (Cacheable(P, opt) /\ kq # <<>> /\ CacheKey(P, opt) = kq) => (PrintT(<<"LOOKUP", 1>>) /\ MS(q, opt, {}) = MS(P, opt, {}))
 (* the F1 deviation only ever removes lines from a positive long boundary term *)
 F1OnlyRemoves == (Len(terms) = 1 /\ terms[1].shape = <<"'", "'">> /\ ~terms[1].inv) =>
     /\ MS(q, opt, {"F1"}) \subseteq MS(q, opt, {})
@@ -123,8 +123,13 @@ CaseRec(cls, query, o) ==
     IN [cls |-> cls, q |-> query, o |-> o, m |-> Compact(S, Len(U)), exit |-> FilterExit(S), nterms |-> Len(p),
         ckey |-> CacheKey(query, o), cacheable |-> Cacheable(query, o), sortable |-> Sortable(query, o),
         hasf1 |-> HasLongBoundary(p),           \* the F1 deviation applies: f1 = what a build with that defect reports
-        f1 |-> IF HasLongBoundary(p) THEN Compact(MSof(p, U, {"F1"}), Len(U)) ELSE [neg |-> FALSE, ids |-> {}]]
+        f1 |-> IF HasLongBoundary(p) THEN Compact(MSof(p, U, {"F1"}), Len(U)) ELSE [neg |-> FALSE, ids |-> {}],
+        f1exit |-> IF HasLongBoundary(p) THEN FilterExit(MSof(p, U, {"F1"})) ELSE 1]
 ASSUME PrintT(<<"UNIV", ToJson(Universe)>>)
+(* the symbol tables this module relies on, bound to unicode.* / algo by TestVerifQueryChars *)
+CharTable == [s \in AllSymbols |-> [lower |-> Lower(s), norm |-> Norm(s), space |-> IsSpace(s),
+                                     word |-> IsWordClass(Class(s, "default"))]]
+ASSUME PrintT(<<"CHARS", ToJson(CharTable)>>)
 
 GenClass == IOEnv.GEN_CLASS
 Emit == PrintT(<<"CASE", ToJson(CaseRec(GenClass, q, opt))>>)
